@@ -865,8 +865,13 @@ class Channel:
             # threads warning: the channel might be closed under our feet,
             # but it's never damaging to send too many CHANNEL_CLOSE messages
             # however, if the other side triggered a close already, we
-            # do not send back a closed message.
-            if not self._receiveclosed.is_set():
+            # do not send back a closed message.  A peer that only dropped
+            # its handle (CHANNEL_LAST_MESSAGE, we are "sendonly") still
+            # listens through a callback and must learn that we are done.
+            if not (
+                self._receiveclosed.is_set()
+                and self.gateway._channelfactory.finished
+            ):
                 put = self.gateway._send
                 if error is not None:
                     put(Message.CHANNEL_CLOSE_ERROR, self.id, dumps_internal(error))
